@@ -115,7 +115,7 @@ def run_shard(spec, emit):
     tier, seed, shard = spec["tier"], spec["seed"], spec["shard"]
     rng = random.Random(f"{seed}:C09:{shard}")
     n_cases = 150 if tier == "quick" else 1500
-    deadline = time.monotonic() + (80 if tier == "quick" else 2400)
+    deadline = time.monotonic() + (80 if tier == "quick" else 300)
     samples = 0
     with RecordingServer(Script()) as server:
         schema = schemathesis.openapi.from_dict(document())
